@@ -438,6 +438,7 @@ def python_side_fuse_checks(c, fused, out, k):
 def run_fuse(run, rng, count, shard=400, n_exec=100):
     cases = fuse_cases(run, rng, count)
     files = []
+    n_raised = 0
     for s0 in range(0, len(cases), shard):
         header = HEADER
         items = []
@@ -445,7 +446,14 @@ def run_fuse(run, rng, count, shard=400, n_exec=100):
         for j, (n, descs, k) in enumerate(cases[s0:s0 + shard]):
             idx = s0 + j
             c = build(n, descs)
-            fused, out, sigs = observe_fuse(c, k)
+            try:
+                fused, out, sigs = observe_fuse(c, k)
+            except Exception as e:
+                n_raised += 1
+                run.case({"fuse": [n, k, [(d["name"], d["q"]) for d in descs]]}, nontrivial=False)
+                run.find(f"fuse:raises:{case_key(n, descs, k)}", f"Circuit.fuse raised {e!r} on a valid circuit",
+                         {"mechanism": "fuse", "nqubits": n, "max_qubits": k, "descs": descs, "error": repr(e)})
+                continue
             bad = python_side_fuse_checks(c, fused, out, k)
             header += f"Definition c{idx} : list gate := {coq_circuit(c)}.\n"
             header += f"Definition o{idx} : list sigT := [{'; '.join(coq_sig(s) for s in out)}].\n"
@@ -492,9 +500,9 @@ def run_fuse(run, rng, count, shard=400, n_exec=100):
                          f"(output equal: {so}, node state equal: {sn}) although the output is certified equivalent",
                          rep, concrete=False)
     run.oblige("fuse: every implementation output certified by trace_equiv_b (kernel-checked per instance)",
-               n_cert == len(cases), "certificate")
+               n_cert == len(cases) and not n_raised, "certificate")
     run.oblige("fuse: model output and final node state equal the implementation's on every case",
-               n_struct == len(cases), "correspondence")
+               n_struct == len(cases) and not n_raised, "correspondence")
     run.notes["fuse_cases"] = len(cases)
     run.notes["fuse_certified"] = n_cert
     # exact execution cross-check on a subset
@@ -504,7 +512,10 @@ def run_fuse(run, rng, count, shard=400, n_exec=100):
             break
         if any(d["kind"] == "M" and d.get("collapse") for d in descs) or not descs:
             continue
-        diff = exec_fuse_check(n, descs, k, run.seed + n_run)
+        try:
+            diff = exec_fuse_check(n, descs, k, run.seed + n_run)
+        except Exception as e:
+            diff = {"exec_error": repr(e)}
         if diff == "skip":
             continue
         n_run += 1
@@ -548,13 +559,29 @@ def lc_cases(rng, count):
 def run_light_cone(run, rng, count, shard=400, n_exec=60):
     cases = lc_cases(rng, count)
     files = []
+    n_raised = 0
     for s0 in range(0, len(cases), shard):
         header = HEADER
         items, meta = [], []
         for j, (n, descs, S) in enumerate(cases[s0:s0 + shard]):
             idx = s0 + j
             c = build(n, descs)
-            lc, qmap = observe_light_cone(c, S)
+            try:
+                lc, qmap = observe_light_cone(c, S)
+            except Exception as e:
+                n_raised += 1
+                run.case({"light_cone": [n, S, [(d["name"], d["q"]) for d in descs]]}, nontrivial=False)
+                run.find(f"light_cone:raises:{case_key(n, descs, S)}", f"Circuit.light_cone raised {e!r} on a valid circuit",
+                         {"mechanism": "light_cone", "nqubits": n, "qubits": S, "descs": descs, "error": repr(e)})
+                continue
+            if any(not isinstance(q, (int, np.integer)) for g in lc.queue for q in g.qubits) or \
+                    any(not hasattr(g, "_vid") for g in lc.queue):
+                n_raised += 1
+                run.case({"light_cone": [n, S, [(d["name"], d["q"]) for d in descs]]}, nontrivial=False)
+                run.find(f"light_cone:malformed:{case_key(n, descs, S)}",
+                         "Circuit.light_cone returned a gate acting on a qubit that is not in the qubit map",
+                         {"mechanism": "light_cone", "nqubits": n, "qubits": S, "descs": descs})
+                continue
             bad = []
             cone = sorted(qmap)
             if qmap != {q: i for i, q in enumerate(cone)}:
@@ -600,8 +627,9 @@ def run_light_cone(run, rng, count, shard=400, n_exec=60):
                          "model and implementation of Circuit.light_cone disagree although the output is certified", rep,
                          concrete=False)
     run.oblige("light_cone: every implementation output certified (c ~ kept ++ dropped, dropped off S, kept inside cone)",
-               n_cert == len(cases), "certificate")
-    run.oblige("light_cone: model output equals the implementation's on every case", n_struct == len(cases), "correspondence")
+               n_cert == len(cases) and not n_raised, "certificate")
+    run.oblige("light_cone: model output equals the implementation's on every case",
+               n_struct == len(cases) and not n_raised, "correspondence")
     run.notes["light_cone_cases"] = len(cases)
     n_ok = n_run = 0
     for (n, descs, S) in cases:
@@ -610,7 +638,10 @@ def run_light_cone(run, rng, count, shard=400, n_exec=60):
         if any(d["kind"] != "ord" for d in descs) or not descs:
             continue
         n_run += 1
-        diff = exec_lc_check(n, descs, S, run.seed + n_run)
+        try:
+            diff = exec_lc_check(n, descs, S, run.seed + n_run)
+        except Exception as e:
+            diff = {"exec_error": repr(e)}
         if diff is None:
             n_ok += 1
         else:
@@ -640,6 +671,26 @@ def refuse_check(run):
                  {"mechanism": "refuse", "nqubits": 3, "descs": descs, "max_qubits": 2})
 
 
+def static_obligations(run):
+    ths = vcore.props_theorems("C07/Props.v")
+    ok, pa = vcore.static_assumptions("C07/Props")
+    for t in ths:
+        if t.endswith("_refuted"):
+            run.refuted.append(f"{t} (Coq witness: the negation of fuse_equiv for circuits containing a FusedGate)")
+        run.oblige(f"C07/Props.{t}", ok and t in pa, "theorem")
+        if ok and t in pa and not pa[t].startswith("Closed"):
+            run.axioms.add(f"{t}: {pa[t]}")
+        if t.endswith("_partial"):
+            run.not_proved.append(f"{t} is a partial result (see comment in C07/Props.v)")
+    run.notes["print_assumptions"] = pa
+    run.not_proved += [
+        "partial-trace identity Tr_{S^c}[(1 x D) rho (1 x D)^+] = Tr_{S^c} rho (premise obs_outside of light_cone_reduced_state)",
+        "that running the re-indexed light-cone circuit on |cone| qubits equals running the kept gates on all n qubits "
+        "and tracing out the rest (needs the matrix semantics of C01; exercised by the exact-execution test only)",
+        "commutation of concrete gate matrices with disjoint supports (premise of fuse_same_final_state; belongs to C01)",
+        "matrix_fused (the matrix of a fused group = product of its members): exercised by the exact-execution test only"]
+
+
 def main(run):
     rng = random.Random(run.seed)
     run.trusted += ["Coq 8.16.1 kernel, vm_compute",
@@ -650,19 +701,15 @@ def main(run):
     run.assumptions += ["circuits contain no noise channels (fusion absorbs a Channel into a FusedGate whose execution raises)",
                         "light_cone_ok's last algebraic step (partial trace ignores operations outside S) is a premise of "
                         "the corollary, checked only by the exact-execution test"]
-    ths = vcore.props_theorems("C07/Props.v")
-    ok, pa = vcore.static_assumptions("C07/Props")
-    for t in ths:
-        run.oblige(f"C07/Props.{t}", ok and t in pa, "theorem")
-        if ok and t in pa and not pa[t].startswith("Closed"):
-            run.axioms.add(f"{t}: {pa[t]}")
-        if t.endswith("_partial"):
-            run.not_proved.append(f"{t} is a partial result (see comment in C07/Props.v)")
-    run.notes["print_assumptions"] = pa
+    static_obligations(run)
     quick = run.tier == "quick"
     run_fuse(run, rng, 520 if quick else 5200, n_exec=100 if quick else 1000)
     run_light_cone(run, rng, 200 if quick else 2000, n_exec=60 if quick else 600)
     refuse_check(run)
+    if not quick:
+        rc, out = vcore.sh("timeout 1500 coqchk -o -silent -Q theories QV QV.C07.Props", timeout=1600, cwd=vcore.COQ)
+        run.checker_cmds.append("coqchk -o -silent -Q theories QV QV.C07.Props")
+        run.oblige("coqchk re-checks the compiled cone of C07/Props (no axioms)", rc == 0 and "Axioms: <none>" in out, "kernel-recheck")
     return run.finish(level="proof", rule=(
         "random (n<=6, len<=12, arities 1-3, controlled gates, M incl. collapse, CallbackGate), adversarial "
         "(non-commuting gates between fusion partners), dense and brickwork circuits; max_qubits 0..n+1; light-cone "
@@ -671,38 +718,49 @@ def main(run):
 
 
 def replay(run, data):
+    static_obligations(run)
     r = data["replay"]
     mech = r.get("mechanism")
     if mech == "refuse":
         refuse_check(run)
     elif mech in ("fuse", "fuse-exec"):
         n, descs, k = r["nqubits"], r["descs"], r["max_qubits"]
-        diff = None
-        for s in range(8):
-            try:
-                d1 = exec_fuse_check(n, descs, k, r.get("seed", s) if s == 0 else s)
-            except Exception:
-                d1 = None
-            diff = diff or (None if d1 == "skip" else d1)
-        c = build(n, descs)
-        fused, out, sigs = observe_fuse(c, k)
-        bad = python_side_fuse_checks(c, fused, out, k)
-        hdr = HEADER + f"Definition c0 : list gate := {coq_circuit(c)}.\nDefinition o0 : list sigT := [{'; '.join(coq_sig(s) for s in out)}].\n"
-        res, _ = run.coq_bools("C07_replay.v", hdr, [("cert", f"gtrace_equivn_b {n} (flat_map (sig_gates c0) o0) c0")])
-        if diff or bad or not (res and res["cert"]):
-            run.find(data["key"], data["what"], {**r, "exec_diff": diff, "bad": bad})
+        run.case({"fuse": [n, k, descs]})
+        diff, bad, cert = None, [], True
+        try:
+            for s in range(8):
+                try:
+                    d1 = exec_fuse_check(n, descs, k, r.get("seed", s) if s == 0 else s)
+                except RuntimeError:
+                    d1 = None
+                diff = diff or (None if d1 == "skip" else d1)
+            c = build(n, descs)
+            fused, out, sigs = observe_fuse(c, k)
+            bad = python_side_fuse_checks(c, fused, out, k)
+            hdr = HEADER + f"Definition c0 : list gate := {coq_circuit(c)}.\nDefinition o0 : list sigT := [{'; '.join(coq_sig(s) for s in out)}].\n"
+            res, _ = run.coq_bools("C07_replay.v", hdr, [("cert", f"gtrace_equivn_b {n} (flat_map (sig_gates c0) o0) c0")])
+            cert = bool(res and res["cert"])
+        except Exception as e:
+            bad.append(f"raised {e!r}")
+        if diff or bad or not cert:
+            run.find(data["key"], data["what"], {**r, "exec_diff": diff, "bad": bad, "certificate": cert})
     elif mech in ("light_cone", "light_cone-exec"):
         n, descs, S = r["nqubits"], r["descs"], r["qubits"]
-        diff = None
-        if all(d["kind"] == "ord" for d in descs):
-            for s in range(8):
-                diff = diff or exec_lc_check(n, descs, S, s)
-        c = build(n, descs)
-        lc, qmap = observe_light_cone(c, S)
-        cone = sorted(qmap)
-        kept = [g._vid for g in lc.queue]
-        hdr = HEADER + f"Definition c0 : list gate := {coq_circuit(c)}.\n"
-        res, _ = run.coq_bools("C07_replay.v", hdr, [("cert", f"lc_cert_b c0 {nl(S)} {nl(cone)} {nl(kept)}")])
-        if diff or not (res and res["cert"]):
-            run.find(data["key"], data["what"], {**r, "exec_diff": diff})
+        run.case({"light_cone": [n, S, descs]})
+        diff, bad, cert = None, [], True
+        try:
+            if all(d["kind"] == "ord" for d in descs):
+                for s in range(8):
+                    diff = diff or exec_lc_check(n, descs, S, s)
+            c = build(n, descs)
+            lc, qmap = observe_light_cone(c, S)
+            cone = sorted(qmap)
+            kept = [g._vid for g in lc.queue]
+            hdr = HEADER + f"Definition c0 : list gate := {coq_circuit(c)}.\n"
+            res, _ = run.coq_bools("C07_replay.v", hdr, [("cert", f"lc_cert_b c0 {nl(S)} {nl(cone)} {nl(kept)}")])
+            cert = bool(res and res["cert"])
+        except Exception as e:
+            bad.append(f"raised {e!r}")
+        if diff or bad or not cert:
+            run.find(data["key"], data["what"], {**r, "exec_diff": diff, "bad": bad, "certificate": cert})
     return run.finish(rule="replay of one recorded case")
